@@ -82,6 +82,7 @@ func (x *runner) report(c Case, o *Outcome, origin string, muts []string, inKind
 			budget = 400
 		}
 		min, rep.Probes = minimise(c, sig, nil, dl, budget)
+		grace = 20 * time.Second
 		if o2 := Exec(min, nil, watchdog); o2.Signature() == sig {
 			rep.Outcome = o2
 		} else {
@@ -120,11 +121,16 @@ func (x *runner) runCorpus(deferred bool) {
 			dl = 2 * time.Second // a known hang need not cost the full watchdog on every run
 		}
 		var o *Outcome
+		savedGrace := grace
+		if cc.Expect == "finding" {
+			grace = 0
+		}
 		if cc.Isolate {
 			o = ExecIsolated(c)
 		} else {
 			o = Exec(c, nil, dl)
 		}
+		grace = savedGrace
 		x.sum.Count("corpus:"+cc.Name, true)
 		switch {
 		case o.Fail == "":
@@ -207,7 +213,7 @@ func main() {
 
 	seeds := append(fixtureSeeds(), sampleSeeds()...)
 	sum.Extra["sample_schemas_loaded"] = len(seeds) - 7
-	nSchemas := o.Count(2200, 100000)
+	nSchemas := o.Count(2200, 40000)
 	inputsPer := 3
 	t0 := time.Now()
 	for i := 0; i < nSchemas && hangs < 6; i++ {
@@ -224,6 +230,7 @@ func main() {
 	}
 	sum.Extra["fuzz_seconds"] = time.Since(t0).Seconds()
 	sum.Extra["abandoned_hung_workers"] = hangs
+	sum.Extra["slow_calls_over_watchdog_but_within_grace"] = slowCalls
 
 	t1 := time.Now()
 	correspondence(r, sum, cw, o.Count(250, 5000))
